@@ -598,6 +598,7 @@ func (c *ClusterInfo) GetNSQDStats(producers Producers,
 				}
 				topic.Node = addr
 				topic.Hostname = p.Hostname
+				topic.NodeStats = nil // filled in by Add, never taken from the upstream
 				topic.MemoryDepth = topic.Depth - topic.BackendDepth
 				topic.DeliveryMsgCount = topic.ZoneLocalMsgCount + topic.RegionLocalMsgCount + topic.GlobalMsgCount
 				if selectedTopic != "" && topic.TopicName != selectedTopic {
@@ -617,6 +618,7 @@ func (c *ClusterInfo) GetNSQDStats(producers Producers,
 				for _, channel := range topic.Channels {
 					channel.Node = addr
 					channel.Hostname = p.Hostname
+					channel.NodeStats = nil // filled in by Add, never taken from the upstream
 					channel.TopicName = topic.TopicName
 					channel.MemoryDepth = channel.Depth - channel.BackendDepth
 					channel.DeliveryMsgCount = channel.ZoneLocalMsgCount + channel.RegionLocalMsgCount + channel.GlobalMsgCount
